@@ -264,3 +264,68 @@ contract(F, 'ContiguousBlockAllocator._find_previous', props=('C16',),
                                               'pos': 'int'}},
          hooks={'getitem': cba_getitem, 'getattr': cba_getattr},
          class_modules={'ContiguousBlockAllocator': F}, native=False)
+
+
+# ---- _split: carve n slots off an available block and book both parts -----------------------------
+def sp_getattr(eng, obj, name, st, node):
+    return None
+
+
+def sp_setitem(eng, obj, idx, v, st, node):
+    if obj.k == 'obj' and obj.oid == 'self._array' and idx.k == 'int':
+        st.trace.append(('slot', idx.z, v))
+        return [('next', st)]
+    return None
+
+
+def freed_event(name):
+    def pol(eng, selfv, args, kwargs, st, node):
+        st.trace.append((name, args[0]))
+        return [(st, NONE)]
+    return pol
+
+
+def split_book_post(c):
+    r = c.resultv
+    s0, s1 = c.pre.self, c.post.self
+    av = c.pre.avail_block
+    off = s0.addr_offset
+    if r.k != 'list' or len(r.items) != 2 or r.items[0].k != 'ref':
+        return z3.BoolVal(False)
+    new, left = r.items
+    nv = c.view(new)
+    slots = [e for e in c.trace if e[0] == 'slot']
+    adds = [e[1] for e in c.trace if e[0] == 'add-freed']
+    rems = [e[1] for e in c.trace if e[0] == 'remove-freed']
+    cl = [nv.start == av.start, nv.size == c.n, nv.used == c.used,        # the first n slots of the block, marked
+          z3.BoolVal(len(rems) == 1 and rems[0].k == 'ref' and rems[0].oid == 'avail_block'),  # old block unbooked
+          z3.BoolVal(len(slots) >= 1 and slots[0][2] is new), slots[0][1] == av.start - off if slots else z3.BoolVal(False)]
+    new_added = any(a is new for a in adds)
+    cl.append(z3.BoolVal(new_added) == z3.Not(c.used))                    # a part that stays free is booked as free
+    if left.k == 'none':
+        cl += [c.n == av.size, s1.top == s0.top, z3.BoolVal(len(slots) == 1 and len(adds) == (1 if new_added else 0))]
+        return z3.And(*cl)
+    lv = c.view(left)
+    left_added = any(a is left for a in adds)
+    cl += [c.n < av.size, lv.start == av.start + c.n, lv.size == av.size - c.n,     # the rest, right behind
+           z3.BoolVal(len(slots) == 2 and slots[1][2] is left), slots[1][1] == av.start + c.n - off if len(slots) == 2 else z3.BoolVal(False),
+           s1.top == z3.If(s0.top >= av.start + c.n, s0.top, av.start + c.n),       # high-water mark never below the rest
+           # the rest is booked as free unless it is the untouched area at the top
+           z3.BoolVal(left_added) == (s1.top > av.start + c.n)]
+    return z3.And(*cl)
+
+
+contract(F, 'ContiguousBlockAllocator._split', props=('C16',),
+         params={'self': 'self', 'avail_block': 'ref:ContiguousBlock', 'n': 'int', 'used': 'bool'},
+         requires=lambda c: z3.And(c.pre.avail_block.size > 0, c.n > 0, c.n <= c.pre.avail_block.size),
+         ensures=[('first-n-slots-and-the-rest-entered-in-table-and-free-lists;top-updated', split_book_post)],
+         modifies=[('self', 'top'), ('avail_block', 'used')],
+         fields={'ContiguousBlockAllocator': {'_array': 'obj', 'addr_offset': 'int', 'top': 'int', 'size': 'int',
+                                              'pos': 'int', '_freed': 'obj'},
+                 'ContiguousBlock': CB},
+         hooks={'setitem': sp_setitem},
+         policies={'ContiguousBlockAllocator._add_to_freed': freed_event('add-freed'),
+                   'ContiguousBlockAllocator._remove_from_freed': freed_event('remove-freed')},
+         inline=('max', 'ContiguousBlock.split', 'ContiguousBlock.__init__'), opts={'construct': ('ContiguousBlock',)},
+         class_modules={'ContiguousBlockAllocator': F, 'ContiguousBlock': F}, native=False,
+         note='ContiguousBlock.split executed from its real body; the free lists (dict of sets) are ghost events')
